@@ -22,7 +22,7 @@ Qed.
 Lemma parse_date_ig s :
   parse_date true s = match parse_date false s with DOk x => DOk (untz x) | r => r end.
 Proof.
-  unfold parse_date.
+  unfold parse_date. destruct (overlong_digits s); [reflexivity|]. unfold parse_date_compact.
   do 17 (destruct s as [|? s];
          [first [reflexivity
                 | match goal with |- context [if ?b then _ else _] => destruct b end;
@@ -53,8 +53,8 @@ Proof.
   induction ps as [|p ps IH]; intros kw kw' H.
   - inversion H; subst. reflexivity.
   - cbn [handle_pairs] in *. destruct (split_on 61 p) as [|a [|b [|c t]]]; try discriminate.
-    destruct (handle false (upper a) (upper b) kw) as [k1|] eqn:E; [|discriminate].
-    rewrite (handle_untz _ _ _ _ E). apply IH, H.
+    destruct (handle false (upper a) (upper b) kw) as [k1|e1] eqn:E; [|destruct e1; discriminate].
+    rewrite (handle_untz _ _ _ _ E). cbn [catch] in *. apply IH, H.
 Qed.
 
 (* ignoretz=True reads the same rule parts; only UNTIL loses its zone *)
